@@ -2,6 +2,7 @@
 //verif:use store,corehelp
 //verif:assume stores are the in-memory model; yaml.v2 round-trips opaque documents; interleavings are explored at store-call granularity (a preemption point before every store operation, the solver decides at each whether the other creator runs first)
 //verif:assume delete / rename universe: repositories r and r2 (r2's name extends r's); in r up to two bundles (one with two index files, one empty with none) each present or absent, up to two labels; both store behaviours for deleting a missing key (error as GCS, nil as the local file system)
+//verif:assume further: DeleteRepo dying at a solver-chosen mutating call (1..12, landed or not) and run again; RenameRepo over plain and checksum-writing (PutCRC) stores with one read or write fault on a file list; RenameRepo racing CreateRepo of the target name with at most two (thorough three) hand-overs; delete-files over a bundle with two file lists under one transient fault at any store call
 //verif:cover VerifC09CreateRace second-creator-ran-between
 //verif:cover VerifC09DeleteRepo empty-bundle labels-removed
 //verif:cover VerifC09DeleteCrash died-mid-delete retry-succeeds
